@@ -56,6 +56,7 @@ class Solver(pl.LightningModule):
         self.train_conditions = nn.ModuleList(train_conditions)
         self.val_conditions = nn.ModuleList(val_conditions)
         self.optimizer_setting = optimizer_setting
+        self.n_training_step = 0
 
     def train_dataloader(self):
         """"""
@@ -95,7 +96,10 @@ class Solver(pl.LightningModule):
             condition._move_static_data(self.device)
         for condition in self.val_conditions:
             condition._move_static_data(self.device)
-        self.n_training_step = 0
+        # the iteration number handed to the conditions never restarts: conditions
+        # cache values per iteration (e.g. the branch output of a DeepONet), a second
+        # call of fit would otherwise reuse the values of the last run
+        self.n_training_step = max(self.n_training_step, self.global_step)
 
     def training_step(self, batch, batch_idx):
         loss = torch.zeros(1, requires_grad=True, device=self.device)
